@@ -106,11 +106,20 @@ def generate(rng, tier):
             for d in dss:
                 d['intdtype'] = False
             c['ds'] = dss    # one 'dataset' per time point, same labels
-            c['times'] = sorted(rng.sample(range(0, 40), nt))
+            # the time axis is in arbitrary (not ascending) order; bins are arbitrary, possibly interleaved groups
+            # of time points listed in arbitrary order (seeded change C01-m5: movies of unsorted time axes)
+            c['times'] = rng.sample(range(0, 40), nt)
+            if rng.random() < 0.3:
+                c['times'] = sorted(c['times'])
             c['bins'] = None
             if nt >= 2 and rng.random() < 0.4:
-                cut = rng.randint(1, nt - 1)
-                c['bins'] = [c['times'][:cut], c['times'][cut:]]
+                for _ in range(20):
+                    member = [rng.random() < 0.5 for _ in range(nt)]
+                    b0 = [t for t, m in zip(c['times'], member) if m]
+                    b1 = [t for t, m in zip(c['times'], member) if not m]
+                    if b0 and b1 and sum(b0) * len(b1) != sum(b1) * len(b0):
+                        c['bins'] = [b0, b1] if rng.random() < 0.5 else [b1, b0]
+                        break
             c['remove_mean'] = False   # calc_rdm_movie has no such option
         p = c['ds'][0]['p']
         c['noise'] = spd(rng, p) if (method == 'mahalanobis' and rng.random() < 0.8) else None
@@ -302,6 +311,8 @@ def oracle(c, o):
             return f'movie: time descriptor {times} does not have one entry per (binned) time point'
         if not c['bins'] and list(times) != list(c['times']):
             return f'movie: time descriptor {times} != {c["times"]}'
+        if c['bins'] and [float(t) for t in times] != [sum(b) / len(b) for b in c['bins']]:
+            return f'movie: binned time descriptor {times} is not the mean time of each bin {c["bins"]}'
     # extra obs descriptor constant within condition must label the right condition
     if c['kind'] == 'single' and c['extra'] and c['use_desc']:
         tw = o['pattern'].get('twice')
